@@ -1106,6 +1106,9 @@ func oC16(ix *Index) []Violation {
 			if !w.Returned() {
 				continue
 			}
+			if w.Op == "wait" && w.RetEv.St != "" && w.RetEv.St != "Closed" {
+				out = append(out, v("C16", "not-closed-after-wait", "job %d: Wait returned (call %d) and the status read right after it is %q", n, w.Call, w.RetEv.St))
+			}
 			for _, b := range ss {
 				if b.lo > w.Ret && b.st != "Closed" {
 					out = append(out, v("C16", "not-closed-after-wait", "job %d: %s returned at %d but %s at %d reads %q", n, w.Op, w.Ret, b.src, b.lo, b.st))
